@@ -113,6 +113,7 @@ void harness_garbage_f5(void) { garbage_independent(call_f5); }
 void harness_garbage_f7(void) { garbage_independent(call_f7); }
 void harness_garbage_f8(void) { garbage_independent(call_f8); }
 void harness_garbage_f6(void) { garbage_independent(wuffs_demo__parser__f6); }
+void harness_garbage_f9(void) { garbage_independent(wuffs_demo__parser__f9); }
 void harness_garbage_transform(void) { garbage_independent(call_transform); }
 
 // std hasher: adler32 over arbitrary prior object memory
